@@ -14,7 +14,8 @@
     child. *)
 From Coq Require Import String NArith ZArith QArith Bool Arith List Permutation.
 From GT Require Import Base.UTree Spec.Obs Spec.CompareSpec Spec.Unrooted Model.Reroot Model.Index Model.EdgeIndex Model.Compare
-     Proofs.IndexSplit Proofs.CompareBase Proofs.CompareTree Proofs.CompareMain Proofs.CompareCor.
+     Proofs.IndexSplit Proofs.CompareBase Proofs.CompareTree Proofs.CompareMain Proofs.CompareCor
+     Proofs.CompareDomain Proofs.CompareDupfree.
 Import ListNotations.
 Local Close Scope Q_scope.
 
@@ -30,6 +31,32 @@ Theorem C08_compare_counts :
                    (spec_identical tips t1 t2) EmptyString)).
 Proof. exact compare_counts. Qed.
 Print Assumptions C08_compare_counts.
+
+(** * the domain of the property: [unrooted t] = good, root of degree >= 3, no node with a single
+    child.  There the two side conditions hold, and the statement reads: *)
+Theorem C08_unrooted_dupfree : forall t, unrooted t -> dupfree t.
+Proof. exact unrooted_dupfree. Qed.
+Print Assumptions C08_unrooted_dupfree.
+
+Theorem C08_unrooted_tipflags : forall t, unrooted t -> tipflags t.
+Proof. exact unrooted_tipflags. Qed.
+Print Assumptions C08_unrooted_tipflags.
+
+Theorem C08_compare_counts_unrooted :
+  forall tips t1 t2,
+    unrooted t1 -> unrooted t2 -> Permutation (leaves t1) (leaves t2) ->
+    compare tips false t1 t2 =
+    Some (Ok (mkBS (Z.of_nat (c_only1 (spec_counts tips t1 t2)))
+                   (Z.of_nat (c_only2 (spec_counts tips t1 t2)))
+                   (Z.of_nat (c_both (spec_counts tips t1 t2)))
+                   (spec_identical tips t1 t2) EmptyString)).
+Proof. exact compare_counts_unrooted. Qed.
+Print Assumptions C08_compare_counts_unrooted.
+
+(** the hypotheses are satisfiable: ((a,b),c,d) and (a,b,c,d) are in the domain *)
+Example C08_domain_inhabited : unrooted wit_ref /\ unrooted wit_star /\ Permutation (leaves wit_ref) (leaves wit_star).
+Proof. exact domain_inhabited. Qed.
+Print Assumptions C08_domain_inhabited.
 
 (** * swapping the trees swaps the counts *)
 Theorem C08_compare_swap :
